@@ -815,6 +815,16 @@ func cloneIndependentRun(e *concEnv, watchdog time.Duration) string {
 			n++
 		})
 	})
+	// (one scenario at a time: run together, 1 and 2 would hold the two locks in opposite orders - a deadlock of the
+	// TEST's making, which the race build's timing produced in thorough sweep #6)
+	select {
+	case r := <-done:
+		if r != "" {
+			return r
+		}
+	case <-time.After(watchdog):
+		return "hang(an operation on a bundle and one on its CLONE wait for each other: they share a lock)"
+	}
 	// 2. iterate over the original, read the clone from the callback, a writer to the clone in between
 	entered, release := make(chan struct{}), make(chan struct{})
 	run("Len of the clone from ForEach over the original", func() {
@@ -834,7 +844,7 @@ func cloneIndependentRun(e *concEnv, watchdog time.Duration) string {
 		clone.AddTokens(e.extra)
 	})
 	timeout := time.After(watchdog)
-	for i := 0; i < 3; i++ {
+	for i := 0; i < 2; i++ {
 		select {
 		case r := <-done:
 			if r != "" {
